@@ -35,7 +35,7 @@ typedef struct {
     char *toks[MAXTOK];
     ABT_thread h;
     pthread_t pth;
-    volatile int created, entries, finished, badarg, revives;
+    volatile int created, entries, finished, badarg, revives, cancelled;
     void *arg_given;
 } unit_t;
 static unit_t g_u[MAXU];
@@ -200,6 +200,7 @@ static void run_ops(unit_t *me)
                 break;
             case 'K':
                 vh_note(UEV_OPB, 'K', i, 0);
+                g_u[i].cancelled = 1;
                 ret = ABT_thread_cancel(g_u[i].h);
                 vh_note(UEV_OPE, 'K', i, ret);
                 break;
@@ -295,6 +296,22 @@ static void run_ops(unit_t *me)
                 vh_note(UEV_OPE, 'M', i, ret);
                 break;
             }
+            case 'j': { /* ABT_xstream_join(ES i): on return every unit of the pools only ES i serves must be done */
+                vh_note(UEV_OPB, 'j', i, 0);
+                ret = ABT_xstream_join(g_es[i].h);
+                int n, q, unfinished = 0;
+                for (n = 0; n < g_nu; n++)
+                    for (q = 0; q < g_es[i].npools; q++)
+                        if (g_u[n].created && g_u[n].pool == g_es[i].pools[q] && !g_u[n].finished && !g_u[n].cancelled)
+                            unfinished++;
+                ABT_xstream_state xst;
+                ABT_xstream_get_state(g_es[i].h, &xst);
+                vh_note(UEV_OPE, 'j', i, ret * 10000 + (int)xst * 1000 + unfinished);
+                break;
+            }
+            case 'B':
+                wait_blocked(me, i);
+                break;
             case 'm':
                 vh_note(UEV_OPB, 'm', i, 0);
                 ret = ABT_thread_migrate(g_u[i].h);
